@@ -347,14 +347,27 @@ def compare(ctx, pt, outs):
             ok = False
             continue
         atol = 64 * 2.3e-16 * (mag[0] if k == "bias" else mag[1])
-        if not feq(mval, rep, 1e-9, atol):
+        rtol = 1e-9
+        if pt.mech == "Geometric":
+            # 1 - exp(scale) cancels: a 1-ulp difference of exp is amplified by 1/(1-r), three times over
+            rtol = max(rtol, 40 * 2.3e-16 / max(1e-300, -math.expm1(pt.meas["scale"])))
+        if not feq(mval, rep, rtol, atol):
             ctx.disagree(f"moments.{pt.mech}.{k}", {"params": pt.params, "value": pt.value, "scale": pt.meas}, mval, rep)
             ok = False
     return ok
 
 
-def within(rep, true):
-    return abs(d(rep) - true) <= REL * abs(true) + ABS
+def within(rep, true, extra_rel=0.0):
+    return abs(d(rep) - true) <= (REL + d(extra_rel)) * abs(true) + ABS
+
+
+def emit(ctx, sig, what, data):
+    """at most 3 recorded violations per signature (the runner keeps 200 in all: a new signature must never be crowded
+    out by repetitions of a known one); the rest are only counted"""
+    n = ctx.counters.get("sig:" + sig, 0)
+    ctx.count("sig:" + sig)
+    if n < 3:
+        ctx.violation(sig, what, data)
 
 
 def direct(ctx, pt):
@@ -369,11 +382,12 @@ def direct(ctx, pt):
     # mse = variance + bias^2 on the implementation
     if rb[0] is not None and rv[0] is not None:
         if rm[0] is None:
-            ctx.violation(f"C19:{pt.mech}:mse-missing", f"{desc}.mse({pt.value!r}) raises {rm[1]} although bias and variance are defined", inp)
+            emit(ctx, f"C19:{pt.mech}:mse-missing", f"{desc}.mse({pt.value!r}) raises {rm[1]} although bias and variance are defined", inp)
         else:
-            want = float(rv[0]) + float(rb[0]) ** 2
+            with np.errstate(all="ignore"):
+                want = float(np.float64(rv[0]) + np.float64(rb[0]) ** 2)
             if not feq(rm[0], want, 1e-12, 1e-300):
-                ctx.violation(f"C19:{pt.mech}:mse-decomposition",
+                emit(ctx, f"C19:{pt.mech}:mse-decomposition",
                               f"{desc}: mse({pt.value!r}) = {float(rm[0])!r} but variance + bias^2 = {want!r}", inp)
     if tm is None:
         ctx.count("no_law")
@@ -383,10 +397,14 @@ def direct(ctx, pt):
     for name, rep, true in (("bias", rb, tb), ("variance", rv, tv)):
         if rep[0] is None:
             if rep[1] != "NotImplementedError":
-                ctx.violation(f"C19:{pt.mech}:{name}-raises", f"{desc}.{name}({pt.value!r}) raises {rep[1]}", inp)
+                emit(ctx, f"C19:{pt.mech}:{name}-raises", f"{desc}.{name}({pt.value!r}) raises {rep[1]}", inp)
             continue
         r = float(rep[0])
-        bad = (r != r) or math.isinf(r) or not within(r, true)
+        extra = 0.0
+        if pt.mech == "Geometric" and pt.meas.get("r", 0) < 1:
+            # r is read off a break-point known to 2^-53: its effect on 2r/(1-r)^2 gets the benefit of doubt
+            extra = 8 * 2.3e-16 / max(1e-300, 1 - pt.meas["r"])
+        bad = (r != r) or math.isinf(r) or not within(r, true, extra)
         if not bad:
             continue
         # classify by root cause (one signature per cause and mechanism)
@@ -406,13 +424,13 @@ def direct(ctx, pt):
             sig = f"C19:{pt.mech}:float-cancellation"
         else:
             sig = f"C19:{pt.mech}:{name}:wrong-value"
-        ctx.violation(sig, f"{desc}.{name}({pt.value!r}) = {r!r} but the {name} of the output law (scale measured on the "
+        emit(ctx, sig, f"{desc}.{name}({pt.value!r}) = {r!r} but the {name} of the output law (scale measured on the "
                            f"sampler: {inp['measured']}) is {K2.fmt(true)} [value {where or 'n/a'}]", inp)
     if rm[0] is not None and rb[0] is not None and rv[0] is not None:
         tmse = tv + tb * tb
         r = float(rm[0])
         if r == r and not math.isinf(r) and within(float(rv[0]), tv) and within(float(rb[0]), tb) and not within(r, tmse):
-            ctx.violation(f"C19:{pt.mech}:mse:wrong-value", f"{desc}.mse({pt.value!r}) = {r!r} but E[(M(x)-x)^2] = {K2.fmt(tmse)}", inp)
+            emit(ctx, f"C19:{pt.mech}:mse:wrong-value", f"{desc}.mse({pt.value!r}) = {r!r} but E[(M(x)-x)^2] = {K2.fmt(tmse)}", inp)
 
 
 def monotone(ctx, pt, r):
@@ -444,9 +462,18 @@ def monotone(ctx, pt, r):
             continue
         v1 = float(v1)
         ctx.count("monotonicity_pairs")
-        slack = 1e-9 * max(abs(v0), abs(v1))
+        rel = 1e-9
+        if pt.mech == "GaussianAnalytic":
+            # sigma is the root of an objective containing e^eps (1 + erf(-x)): its numerical noise is the absolute
+            # rounding of erf amplified by e^eps / delta (C02); below that resolution "monotone" has no meaning
+            amp = math.exp(min(700.0, max(p["epsilon"], q["epsilon"]))) * 2.3e-16 / p["delta"]
+            if amp > 1e-4:
+                ctx.boundary_skipped += 1
+                continue
+            rel = max(rel, 100 * amp)
+        slack = rel * max(abs(v0), abs(v1))
         if (sign < 0 and v1 > v0 + slack) or (sign > 0 and v1 < v0 - slack) or v1 != v1:
-            ctx.violation(f"C19:{pt.mech}:variance-not-monotone-in-{name}",
+            emit(ctx, f"C19:{pt.mech}:variance-not-monotone-in-{name}",
                           f"{pt.mech}: variance {v0!r} at {p} becomes {v1!r} when {name} -> {val!r}",
                           {"mech": pt.mech, "params": p, "value": pt.value, "changed": name, "to": val})
 
@@ -555,9 +582,12 @@ WITNESS_INPUTS = {
                              "upper": 0.0005}, -0.00049),
     "C19:LaplaceBoundedDomain:float-cancellation": (
         "LaplaceBoundedDomain", {"epsilon": 1.0, "delta": 0.0, "sensitivity": 1.0, "lower": 1e7, "upper": 1e7 + 10}, 1e7 + 3),
-    # regression witnesses of defects fixed in /repo (21336e0): no longer expected to fail
+    # regression witness of a defect fixed in /repo (21336e0): no longer expected to fail
     "C19:LaplaceFolded:nan-overflow": ("LaplaceFolded", dict(_U, upper=1000.0), 1.0),
-    "C19:LaplaceFolded:nan-zero-sensitivity": ("LaplaceFolded", dict(_U, sensitivity=0.0), 0.5),
+    # zero sensitivity with the value exactly ON a bound: exp(0/0)
+    "C19:LaplaceFolded:nan-zero-sensitivity": ("LaplaceFolded", dict(_U, sensitivity=0.0), 1.0),
+    "C19:LaplaceTruncated:nan-zero-sensitivity": ("LaplaceTruncated", dict(_U, sensitivity=0.0), 1.0),
+    "C19:LaplaceBoundedDomain:nan-zero-sensitivity": ("LaplaceBoundedDomain", dict(_U, sensitivity=0.0), 1.0),
 }
 
 
